@@ -463,16 +463,16 @@ fn supervisor(id: &str, tier_s: &str) -> i32 {
     )
     .unwrap();
     if let Some(c) = r.get("counters") {
-        writeln!(so, "  observed: {}", c).unwrap();
+        let _ = writeln!(so, "  observed: {}", c);
     }
     if let Some(c) = r.get("skips") {
-        writeln!(so, "  skipped: {}", c).unwrap();
+        let _ = writeln!(so, "  skipped: {}", c);
     }
     for (k, v) in &known_hits {
-        writeln!(so, "  known-finding hits: {} x{}", k, v).unwrap();
+        let _ = writeln!(so, "  known-finding hits: {} x{}", k, v);
     }
     for l in lines {
-        writeln!(so, "{}", l).unwrap();
+        let _ = writeln!(so, "{}", l);
     }
     exit
 }
